@@ -332,6 +332,11 @@ theorem step_inv (s : SM) (h : ChainInv s) (op : Op) : ChainInv (step 3 s op).1 
       | full a n cm g => exact key _ (Or.inr ⟨_, rfl⟩)
       | inc n cm => exact key _ (Or.inr ⟨_, rfl⟩)
       | stale x => exact key _ (Or.inr ⟨_, rfl⟩)
+  | installCrash c =>
+    have hres : resolve (s.snaps ++ [Snap.full c]) = some c := resolve_full_last _ _
+    simp only [step, restartSM, hres, replay, List.foldl_nil, fileAfter, hasLoad, List.any_nil, Bool.or_false]
+    have := chainInv_full_installed s c false false 0 true (s.gen + 1) none (Or.inl rfl)
+    simpa using this
   | reap =>
     simp only [step]
     cases hr : resolve s.snaps with
@@ -526,6 +531,10 @@ theorem guard_step (s : SM) (h : GuardInv s) (op : Op) : GuardInv (step 3 s op).
     cases resolve s.snaps with
     | none => exact h
     | some c => simp only; split <;> exact ⟨h.flag, h.tok⟩
+  | installCrash c =>
+    have hres : resolve (s.snaps ++ [Snap.full c]) = some c := resolve_full_last _ _
+    simp only [step, restartSM, hres, replay, List.foldl_nil, fileAfter, hasLoad, List.any_nil, Bool.or_false]
+    exact ⟨(fun hm => by cases hm), (fun _ _ _ _ hp => by cases hp)⟩
   | restart => exact guard_restart s h
 
 theorem guard_run (ops : List Op) : ∀ (s : SM), GuardInv s → GuardInv (run 3 s ops) := by
